@@ -388,6 +388,10 @@ class BuildInterp(Interp):
                 lo, hi = lo0, add(lo0, f[0])
             elif nm == "RangeFull":
                 lo, hi = lo0, hi0
+            elif nm == "RangeToInclusive":
+                lo, hi = lo0, add(add(lo0, f[0]), 1)
+            elif nm == "RangeInclusive" and len(f) >= 2:
+                lo, hi = add(lo0, f[0]), add(add(lo0, f[1]), 1)
             else:
                 raise Undecided("range kind " + nm)
             if self.compare("Le", lo, hi) != 1 or self.compare("Le", hi, hi0) != 1:
